@@ -27,6 +27,8 @@ RULE = ("two-party histories with several fragmented messages in flight at once 
 
 def post_fn(op, out):
     k = op.split()[0]
+    if k == "sizes":
+        return out
     if k == "send":
         return out
     if k == "build":
@@ -90,11 +92,12 @@ def monitor(case, log, ctx):
 def threshold_monitor(real, ctx):
     """on the real code: <= MAX_PAYLOAD_SIZE -> one APP message; above -> APP_FRAGMENT only; above the limit -> ValueError, queue unchanged"""
     C = real.C
-    for mtu in (1500, 512, 1098):
+    for mtu in [1500, 512, 576, 1280] + list(range(1086, 1100)):
         C.Packet.setMTU(mtu)
         try:
             mp, mf = C.Packet.MAX_PAYLOAD_SIZE, C.Packet.MAX_FRAGMENT_SIZE
-            for n in (mp - 1, mp, mp + 1, 2 * mf, mf * C.Packet.MAX_FRAGMENTS, mf * C.Packet.MAX_FRAGMENTS + 1):
+            for n in (mp - 1, mp, mp + 1, 2 * mf, 3 * mf + 1) + ((mf * C.Packet.MAX_FRAGMENTS, mf * C.Packet.MAX_FRAGMENTS + 1)
+                                                                if mtu in (1500, 512, 1098) else ()):
                 conn = real.new_endpoint("x", "client")
                 conn.status = C.ConnectionStatus.CONNECTED
                 conn.session_key_bytes = connlib.KEY
@@ -112,6 +115,12 @@ def threshold_monitor(real, ctx):
                     ok = err is None and types == {7} and total == n and b"".join(m.payload[6:] for m in conn.outgoing_messages) == payload
                 else:
                     ok = err == "ValueError" and not conn.outgoing_messages
+                # every queued fragment message must fit a datagram by itself, or it is never sent
+                big = [len(m.payload) for m in conn.outgoing_messages if len(m.payload) > mp]
+                if big:
+                    ctx.failure("fragment-does-not-fit-a-datagram", "send of %d bytes at MTU %d queued a fragment message of %d bytes "
+                                "(MAX_PAYLOAD_SIZE %d): it can never be packed" % (n, mtu, big[0], mp), {"mtu": mtu, "len": n})
+                    return
                 ctx.count("threshold:%s" % ("single" if n <= mp else "fragmented" if n <= mf * C.Packet.MAX_FRAGMENTS else "refused"))
                 if not ok:
                     ctx.failure("fragmentation-threshold", "send of %d bytes at MTU %d: error=%s queued=%d types=%s bytes=%d" %
@@ -125,9 +134,9 @@ def run(ctx):
     real = connlib.Real()
     rng = ctx.rng
     n = ctx.scale(50, 900)
-    cases = []
+    cases = [connlib.sizes_case()]
     for i in range(n):
-        mtu = rng.choice([1500, 1500, 512, 576, 1097, 1098, 1280])
+        mtu = rng.choice([1500, 1500, 512, 576, 1097, 1098, 1280, 1090, 1092, 1095, 1096])
         mp = mtu - 66
         mf = mp - 6 if mp < 1030 else 1024
         sizes = [mp - 1, mp, mp + 1, mp + 2, mf + 1, 2 * mf - 1, 2 * mf, 2 * mf + 1, mf + mp - 8, mf + mp - 7, mf + mp - 6,
